@@ -56,6 +56,8 @@ struct Shared {
     served_gen: Mutex<Vec<(u64, usize, usize)>>,
     /// op S: clients that send nothing and close their sending half at once — known by their local port; and the ones of them
     /// whose client has gone away for good (op f), which ends their service call
+    /// number of `Service::call`s so far (the synchronous part: a call whose future is dropped unpolled still counts)
+    calls: AtomicUsize,
     silent: Mutex<std::collections::HashMap<u16, u64>>,
     released: Mutex<Vec<u64>>,
 }
@@ -189,6 +191,7 @@ fn enter(call: usize, w: usize, nworkers: usize, sh: &Arc<Shared>) -> (usize, Ac
         sh.panicked.lock().unwrap().push(w);
         panic!("poisoned connection");
     }
+    sh.calls.fetch_add(1, Ordering::SeqCst);
     sh.active[w].fetch_add(1, Ordering::SeqCst);
     (w, Active(sh.clone(), w))
 }
@@ -934,6 +937,20 @@ fn run_once(line: &str, dir: &PathBuf, quiet: Duration) -> String {
     drop(clients);
     drop(poisoned);
     let stopped = graceful.is_some() || block_on(run.handle.stop(false)).is_some();
+    // (what started while the stop was on its way is none of this check's business: the clients have just gone away, which frees
+    // slots for connections that waited in a backlog)
+    let served_before_stop = sh.calls.load(Ordering::SeqCst);
+    let mut late = 0;
+    if graceful.is_none() && stopped {
+        // the forced stop has completed: whatever was still queued at a worker is released, not served — also when the services
+        // become ready now
+        sh.blocked.store(false, Ordering::SeqCst);
+        for w in sh.ready_wakers.lock().unwrap().drain(..) {
+            w.wake();
+        }
+        std::thread::sleep(Duration::from_millis(150));
+        late = sh.calls.load(Ordering::SeqCst) - served_before_stop;
+    }
     let joined = {
         let (tx, rx) = mpsc::channel();
         std::thread::spawn(move || {
@@ -948,6 +965,9 @@ fn run_once(line: &str, dir: &PathBuf, quiet: Duration) -> String {
     }
     if !stopped || !joined {
         s.push_str(" ; !server-did-not-stop");
+    }
+    if late > 0 {
+        s.push_str(&format!(" ; !{late}-service-call(s)-started-after-the-forced-stop-had-completed"));
     }
     s
 }
